@@ -36,15 +36,26 @@ def profile(tier):
         "device": gen.device_specs(n_channels=(1, 3), allow_builtin=True,
                                    chan_kw={"bandwidth": [None, None, 8, 40]}),
         "register": st.one_of(gen.register_specs(n=(1, 5)),
-                              gen.register_specs(n=(1, 5)),
+                              gen.register_specs(n=(1, 5), int_ids=True),
                               gen.register_specs(n=(2, 5), mappable=True, dim=2)),
     }
 
 
+def profile_eom(tier):
+    """EOM-heavy templates (enable / modify / pulses / disable, with and without phase-drift
+    correction) whose first calls are often concrete: building replays them."""
+    p = profile(tier)
+    return dict(p, min_ops=6, max_ops=20,
+                weights={"declare": 6, "declare_more": 1, "add": 6, "align": 1, "delay": 2,
+                         "phase_shift": 1, "target": 1, "eom": 14, "measure": 0},
+                device=gen.device_specs(n_channels=(1, 2), allow_builtin=False, allow_dmm=False,
+                                        chan_kw={"kind": "Rydberg", "eom": True, "bandwidth": [8, 40]}))
+
+
 @st.composite
-def cases(draw, tier):
-    base = normalise(draw(gen.programs(profile(tier))))
-    pp = draw(gen_param.parametrized(base, rate=draw(st.sampled_from([15, 30, 60]))))
+def cases(draw, tier, eom=False):
+    base = normalise(draw(gen.programs(profile_eom(tier) if eom else profile(tier))))
+    pp = draw(gen_param.parametrized(base, rate=draw(st.sampled_from([5, 15, 30] if eom else [15, 30, 60]))))
     reg = pp["register"]
     if reg.get("mappable"):
         n = reg["mappable"]
@@ -214,4 +225,7 @@ CLAUSES = [
     Clause("build", check, gen=lambda t: cases(t),
            budget={"quick": (16, 200), "thorough": (16, 5000)},
            doc="build(**v) vs direct construction, template immutability, reproducibility, mappable resolution"),
+    Clause("build_eom", check, gen=lambda t: cases(t, eom=True),
+           budget={"quick": (16, 60), "thorough": (16, 1500)},
+           doc="the same for EOM-heavy templates with a concrete prefix (few variables)"),
 ]
